@@ -437,9 +437,9 @@ pub fn run_shard(ctx: &mut Ctx) {
             (Tier::Quick, 2) => 160,
             (Tier::Quick, 3) => 96,
             (Tier::Quick, _) => 48,
-            (Tier::Thorough, 2) => 3_200,
-            (Tier::Thorough, 3) => 2_000,
-            (Tier::Thorough, _) => 1_000,
+            (Tier::Thorough, 2) => 1_600,
+            (Tier::Thorough, 3) => 1_000,
+            (Tier::Thorough, _) => 500,
         };
         let n = ctx.share(total);
         ctx.run_cases(&format!("large_locate_d{dim}"), n, large_strategy(dim), &|c, l| exec_large(c, l));
